@@ -29,4 +29,5 @@ CONF = dict(
     explanation='reply/no-reply of the real listeners is observed with a sentinel request; the oracle of a history is C09_hist_ok over the probe and sentinel exchanges of all its steps (C09_history_meets_oracle: it holds for the model on all histories); NTS verdict and Path.Reverse are recomputed by the harness with the exported functions the listener calls',
     timeout_quick=900,
     timeout_thorough=3000,
+    min_cases={'consts': 1, 'ip': 1498, 'ntp.codec': 76, 'ntp.validate': 537, 'scion': 538, 'scion.onehop': 166, 'srv.handle': 76},
 )
